@@ -10,21 +10,24 @@ Inductive case :=
 | GScript (c : scase)
 (* a send operation on a channel whose State() and transport Connected() were sampled just
    before: did it return nil, and how many envelopes did the peer see because of it *)
-| GSend (client_role : bool) (st : state) (connected : bool) (op : sendop) (o_ok : bool) (o_emitted : nat).
+| GSend (client_role : bool) (session_est : bool) (st : state) (connected : bool) (op : sendop) (o_ok : bool) (o_emitted : nat).
+(* [session_est]: whether, by the script the peer has played so far, the session is established at this
+   stage (the ground truth, which the channel's own State() may or may not reflect) *)
 
 Definition check (c : case) : bool :=
   match c with
   | GScript s => c06_check s
-  | GSend _ st conn _ ok emitted =>
-      (* before establishment and after finished/failed: an error, and nothing on the wire *)
-      if state_eqb st SEstablished then true else negb ok && Nat.eqb emitted 0
+  | GSend _ est st conn _ ok emitted =>
+      (* before establishment and after finished/failed - by the channel's own state or by what the
+         peer has said - an error, and nothing on the wire *)
+      if state_eqb st SEstablished && est then true else negb ok && Nat.eqb emitted 0
   end.
 Definition agrees (c : case) : bool :=
   match c with
   | GScript s =>
       evs_eqb (fst (c06_proj (k_obs s))) (fst (c06_proj (model_obs s))) &&
       Bool.eqb (snd (c06_proj (k_obs s))) (snd (c06_proj (model_obs s)))
-  | GSend _ st conn op ok emitted =>
+  | GSend _ _ st conn op ok emitted =>
       let (mok, mem) := gate st conn op in Bool.eqb ok mok && Nat.eqb emitted mem
   end.
 Definition mismatches (cs : list case) : list nat := bad_indices agrees cs.
